@@ -235,6 +235,29 @@ fn case_builder2<T: Elem>(case: u64, args: &Args, ev: &mut Ev) {
             }
         }
     }
+    // aliased axes (two views of one table): build() must still only see validated axes
+    for _ in 0..12 {
+        let (nx, ny) = (2 + rng.below(4), 2 + rng.below(3));
+        let table = vh::cases::gen_alias_table::<T>(&mut rng, nx, ny, true);
+        let h = RecHandle::new();
+        let data = gen_data::<T>(&mut rng, &[nx, ny], DataClass::Dyadic, (0, 0));
+        let mut spec = Spec2::new(data, None, None, Strat2::Rec { min: 2, h: h.clone() }).aliased_axes(Array1::from(table), nx, ny);
+        spec.dynamic = true;
+        let built = build2(&spec, |r| match r {
+            Ok(_) => Outcome::Ok(()),
+            Err(o) => o,
+        });
+        if matches!(built, Outcome::Untypeable) {
+            break;
+        }
+        ev.add("builder_rows", 1);
+        ev.add("aliased_axes_rows", 1);
+        let replay = spec2_json(&spec).set("row", "aliased axes");
+        let builds = h.lock().builds.clone();
+        if !check_build_rec::<T>(ev, case, "Rec2<2> aliased axes (x = table[..nx], y = table[..;2])", &builds, 2, true, &replay) {
+            return;
+        }
+    }
     let h = RecHandle::new();
     h.lock().fail_build = Some(("ValueError".into(), "injected 2-D".into()));
     let data = gen_data::<T>(&mut rng, &[3, 3], DataClass::Dyadic, (0, 0));
